@@ -160,8 +160,8 @@ func genC06(t *testing.T) {
 	for k := 0; k < nr; k++ {
 		r := common.RngN("c06", uint64(k))
 		st := c06Stages[r.IntN(len(c06Stages))]
-		cp := r.IntN(6)
-		ln := r.IntN(25)
+		cp := wide(r, 6, 16, 64)
+		ln := wide(r, 25, 80)
 		c := &caseT{Site: st.site(), Stage: st.stage, Cap: cp, Mode: st.mode, Monoid: "poly", Tick: tick, FSeed: r.Uint64() % 100000}
 		var seqs [][]string
 		switch {
